@@ -59,7 +59,8 @@ def validate_sharded(ctx, events, name, shards=4, timeout=900, devs=None, count_
     Returns dict(ok, rejected=[(global_index, event, [failed checks], invariant)], devs=set, not_fresh=int, events=int)."""
     devs = list(ctx.open_devs()) if devs is None else list(devs)
     groups = _groups(events)
-    shards = max(1, min(shards, len(groups)))
+    nbytes = sum(len(json.dumps(e)) for e in events)
+    shards = max(1, min(shards, len(groups), 1 + nbytes // 1200000))     # one TLC process per ~1.2 MB of trace
     buckets = [[] for _ in range(shards)]
     sizes = [0] * shards
     for g in sorted(groups, key=lambda g: -sum(len(json.dumps(e)) for _, e in g)):
@@ -205,7 +206,7 @@ def run(ctx):
                coverage=not q, workers=4 if q else 12)
     # G
     cfg = write_gen_cfg(ctx, "gen_import.cfg", Kind='"import"', GN=40, GM=0, GWidths=tset([2, 3, 4, 5]), PartSel=0,
-                        SmallN=8 if q else 40, SmallM=0, SmallW=5, SampleMod=3 if q else 1, Salt=ctx.seed)
+                        SmallN=8 if q else 40, SmallM=0, SmallW=5, Small2N=0, Small2M=0, SampleMod=3 if q else 1, Salt=ctx.seed)
     cases = ctx.tlc_gen(SPEC, "GenUnixFSFile.tla", cfg, timeout=900)
     if not cases:
         return
